@@ -385,6 +385,9 @@ int main(void)
         if (il > limitN - pos) il = (size_t)(limitN - pos);
         /* eoi_style 4: the block that uses the stream up carries the end-of-input mark (ilen = ~il) and comes without an output buffer */
         if (eoi_style == 4 && il == limitN - pos) run_process(1, 1, 0, il, 0, t + 4, nt - 4, 0);
+        /* eoi_style 5: the mark comes with the last block in an ordinary call (the form soxr_oneshot and the libsamplerate wrapper
+         * use); with an idone pointer and little output room only part of it is accepted and the next `feed` offers the rest, marked again */
+        else if (eoi_style == 5 && il == limitN - pos) run_process(1, 1, atoi(t[3]), il, ol, t + 4, nt - 4, 0);
         else run_process(1, 0, atoi(t[3]), il, ol, t + 4, nt - 4, 0);
       }
       else after_end(ol, t + 4, nt - 4);
